@@ -172,7 +172,7 @@ CHECKS = {
              'the flags the lexer was built with and falls back to that same field of the defaults; every generated parser run '
              '(one per action kind) passes the builder\'s recovery setting to RTParserBuilder::recoverer; the generated reader '
              'selects, per SerialisationFormat variant, the integer encoding the builder wrote that variant with; every generated '
-             'Lexeme arm of the action wrappers answers Err for a faulty (inserted) lexeme and Ok otherwise. Every quoting function of a workspace enum writes, for each variant, that variant\'s own name into the generated path.',
+             'Lexeme arm of the action wrappers answers Err for a faulty (inserted) lexeme and Ok otherwise. Every quoting function of a workspace enum writes, for each variant, that variant\'s own name into the generated path. The constructor generated code rebuilds the lexer with (from_rules) stores the rule list and the start states exactly as given.',
         note='NOT decided: that the generated and the run-time pipeline produce the same lexemes, values, errors and repairs for '
              'every input (translation validation per generated program; needs both to be run). $-substitution and wrapper '
              'argument order are not decided either (a slip there fails to compile or fails every compile-time test). Trusted: '
@@ -233,7 +233,7 @@ CHECKS = {
              'evidence (exit on an unchanged round, or cyclic rules finalised beforehand); a maximum is final only when no '
              'production of the rule is incomplete; the minimal-sentence generator stops scanning a production once it has '
              'deferred to a rule (else the rest is emitted twice and out of order); the path query compares every edge it discovers with '
-             'the target (or skips only rules it marked right after comparing them). On a deferring round of min_sentence the frame of the rule just met is pushed last onto the LIFO work stack.',
+             'the target (or skips only rules it marked right after comparing them). On a deferring round of min_sentence the frame of the rule just met is pushed last onto the LIFO work stack. Each lazily filled cost table of the sentence generator is filled by one computation at all its sites, and no computation fills two tables.',
         note='A necessary condition for exactness and termination-at-the-fixed-point. That the transfer functions are right beyond the '
              'FIRST/nullable pairing is NOT decided (the pairing rule found a real FOLLOW defect, fixed in /repo 2a78056); '
              'nor is reachability; of minimal sentences only the defer-then-stop discipline (it found the defect fixed in /repo 4c9dae6); 1 known finding (rule_min_costs can hang / overflow on unit cycles and '
@@ -259,7 +259,7 @@ CHECKS = {
     'C19': dict(
         level='other',
         text='ONLY the clause "the line-start table is never indexed out of bounds": for every function of '
-             'cfgrammar::newlinecache every index or sub-slice of NewlineCache::newlines is proved in range on every path '
+             'cfgrammar::newlinecache every index or sub-slice of NewlineCache::newlines - through Index calls and through the built-in bounds check of a slice that is a view of the table - is proved in range on every path '
              '(and no usize subtraction inside an index expression underflows) by a small linear-integer argument from the '
              "path's comparisons, the postconditions of slice::binary_search over exactly the sub-slice searched, usize >= 0 "
              'and two table invariants whose premises are checked structurally (new() builds the table as [0]; every other '
